@@ -1643,6 +1643,10 @@ class Interp:
         if isinstance(want, PyNum):
             if not isinstance(got, PyNum): eng.oblige(f"{name}/kind", False); return
             eng.oblige(f"{name}/value", got.r == want.r); return
+        if isinstance(want, Unit):
+            if not isinstance(got, Unit): eng.oblige(f"{name}/kind", False); return
+            eng.oblige(f"{name}/unit dimension", got.dim == want.dim)
+            eng.oblige(f"{name}/unit factor", rv(got.factor) == rv(want.factor)); return
         if want is NONE:
             eng.oblige(f"{name}/none", got is NONE); return
         if isinstance(want, bool):
